@@ -64,3 +64,62 @@ Section Run3P.
     change (u16 ty ++ nonce ++ ctx ++ keyid) with (tok_input ty nonce ctx keyid). now rewrite Hpss.
   Qed.
 End Run3P.
+
+(** ** client and issuer agree: the request the client model assembles is accepted by the issuer model *)
+From PatVerif Require Import Proofs.HashP.
+Section ClientIssuer.
+  Variable hpke_seal : list byte -> list byte -> list byte -> list byte * list byte * list byte.
+  Variable hpke_open : list byte -> list byte -> list byte -> option (list byte * list byte).
+  Variable sign : list byte -> list byte.
+  Variable parse_pk : list byte -> bool.
+  Variable sig_verify : list byte -> list byte -> list byte -> bool.
+  Variable registered : list byte -> bool.
+  Variable sign_and_seal : req3 -> inner -> list byte -> option (list byte * list byte).
+  Variable aead_open : list byte -> list byte -> option (list byte).
+  Variable rsa_finalize : list byte -> option (list byte).
+  Variable pss_ok : list byte -> list byte -> bool.
+
+  (** the two sites build the same associated data and the same signed message *)
+  Lemma aad_agree nk rk : aad (issuer_cfg nk) (name_key_id nk) rk = client_aad nk rk.
+  Proof. unfold aad, client_aad, issuer_cfg. now rewrite <- !app_assoc. Qed.
+  Lemma signed_agree r : signed_message r = client_signed (q3_key r) (q3_nkid r) (q3_enc r).
+  Proof. reflexivity. Qed.
+
+  (** HPKE correctness, the signature scheme's correctness, and sizes, as laws of the primitives *)
+  Hypothesis hpke_correct : forall rnd ad pt, let '(enc, ct, secret) := hpke_seal rnd ad pt in
+    length enc = 32%nat /\ hpke_open enc ad ct = Some (pt, secret).
+  Hypothesis sign_correct : forall rk msg, parse_pk rk = true -> sig_verify rk msg (sign msg) = true.
+  Hypothesis sign_len : forall msg, length (sign msg) = 96%nat.
+
+  Theorem client_request_served_l nk rk keyid0 bm name rnd rnonce ct brk bs sg ty nonce ctx keyid :
+    length rk = 49%nat -> parse_pk rk = true ->
+    ends_nonzero name -> registered name = true -> fits16 (pad name) = true -> keyid0 < 256 -> length bm = 256%nat ->
+    let '(r, secret) := client_request3 hpke_seal sign nk rk keyid0 bm name rnd in
+    fits16 (q3_enc r) = true ->
+    sign_and_seal r (inner_for keyid0 bm name) secret = Some (rnonce ++ ct, brk) -> length rnonce = 16%nat ->
+    aead_open (firstn 32 (q3_enc r) ++ rnonce) ct = Some bs ->
+    rsa_finalize bs = Some sg -> length sg = 256%nat ->
+    ty < 65536 -> length nonce = 32%nat -> length ctx = 32%nat -> length keyid = 32%nat ->
+    pss_ok (tok_input ty nonce ctx keyid) sg = true ->
+    run3 hpke_open (issuer_cfg nk) (name_key_id nk) parse_pk sig_verify registered sign_and_seal aead_open rsa_finalize pss_ok
+         r (tok_input ty nonce ctx keyid)
+      = Ok {| t_type := ty; t_nonce := nonce; t_ctx := ctx; t_keyid := keyid; t_auth := sg |}.
+  Proof.
+    intros Lrk Hpk Hend Hreg Hfit Hk0 Hbm. unfold client_request3.
+    pose proof (hpke_correct rnd (client_aad nk rk) (enc_inner (inner_for keyid0 bm name))) as HC.
+    destruct (hpke_seal rnd (client_aad nk rk) (enc_inner (inner_for keyid0 bm name))) as [[enc c] secret].
+    destruct HC as [Lenc Hopen]. intros Hf16 Hseal Lrn Haead Hfin Lsg Hty Hn Hc Hk Hpss.
+    set (r := {| q3_key := rk; q3_nkid := name_key_id nk; q3_enc := enc ++ c;
+                 q3_sig := sign (client_signed rk (name_key_id nk) (enc ++ c)) |}) in *.
+    assert (F32 : firstn 32 (enc ++ c) = enc) by (rewrite <- Lenc; now rewrite firstn_app, Nat.sub_diag, firstn_O, app_nil_r, firstn_all).
+    assert (S32 : skipn 32 (enc ++ c) = c) by (rewrite <- Lenc; now rewrite skipn_app, Nat.sub_diag, skipn_O, skipn_all).
+    apply (honest_type3_l hpke_open (issuer_cfg nk) (name_key_id nk) parse_pk sig_verify registered sign_and_seal
+             aead_open rsa_finalize pss_ok r keyid0 bm name secret rnonce ct brk bs sg ty nonce ctx keyid); auto.
+    - unfold wf_req3, r. cbn [q3_key q3_nkid q3_enc q3_sig]. repeat split; auto.
+      + unfold name_key_id. apply sha256_length.
+      + destruct enc; [discriminate|discriminate].
+    - unfold r. cbn [q3_enc]. rewrite app_length. lia.
+    - unfold r. cbn [q3_enc q3_key]. now rewrite F32, S32, aad_agree.
+    - unfold r at 1 3. cbn [q3_key q3_sig]. rewrite signed_agree. unfold r. cbn [q3_key q3_nkid q3_enc]. now apply sign_correct.
+  Qed.
+End ClientIssuer.
